@@ -259,6 +259,7 @@ type reqPlan struct {
 	Quirk    string        `json:"encoding"`
 	Delivery string        `json:"delivery"`
 	PreDelay time.Duration `json:"pre_delay"`
+	Stagger  time.Duration `json:"stagger,omitempty"`       // launched this long after the previous request of its burst
 	AfterReq string        `json:"after_request,omitempty"` // "" | close | reset
 	DD       ddPlan        `json:"dial_data"`
 	Dial     dialScript    `json:"dial_back"`
@@ -400,8 +401,12 @@ var deliveries = []string{"whole", "whole", "whole", "whole", "whole", "split", 
 
 // listShape fills a request's address list.
 func genEntries(rng *rand.Rand, cfg *sessCfg, pi *peerInfo) (es []entry, shape string) {
-	bad := func() entry { return genEntry(rng, cfg, pi, pick(rng, []string{"private", "private", "undialable", "malformed"})) }
-	good := func() entry { return genEntry(rng, cfg, pi, pick(rng, []string{"foreign", "foreign", "same", "same", "dns"})) }
+	bad := func() entry {
+		return genEntry(rng, cfg, pi, pick(rng, []string{"private", "private", "undialable", "malformed"}))
+	}
+	good := func() entry {
+		return genEntry(rng, cfg, pi, pick(rng, []string{"foreign", "foreign", "same", "same", "dns"}))
+	}
 	var n int
 	switch r := rng.IntN(100); {
 	case r < 4:
@@ -489,9 +494,9 @@ func genEntries(rng *rand.Rand, cfg *sessCfg, pi *peerInfo) (es []entry, shape s
 type ddPlan struct {
 	Shape string        `json:"shape"` // data | padunk-inner | padunk-outer | padvar | wrongtype | zerolen | claimed | nonminimal | giant | mixed
 	N     int           `json:"n,omitempty"`
-	Stop  string        `json:"stop"` // full | data-exact | data-short1 | raw-short1 | raw-exact | half | one | none
-	End   string        `json:"end"`  // wait | close | reset
-	Frag  int           `json:"frag,omitempty"` // 0: one write per message; >0: re-cut the byte stream every Frag bytes; <0 random cuts
+	Stop  string        `json:"stop"`                  // full | data-exact | data-short1 | raw-short1 | raw-exact | half | one | none
+	End   string        `json:"end"`                   // wait | close | reset
+	Frag  int           `json:"frag,omitempty"`        // 0: one write per message; >0: re-cut the byte stream every Frag bytes; <0 random cuts
 	Total time.Duration `json:"spread_over,omitempty"` // >0: the writes are spread evenly over this much virtual time
 	Seed  uint64        `json:"seed"`
 }
